@@ -4,6 +4,7 @@ from __future__ import annotations
 import atexit
 import os
 import random
+import re
 import shutil
 from typing import Any, Dict, List, Optional, Tuple
 
@@ -18,15 +19,16 @@ COQ_FILES = ["FA/Proofs/LambdaFinderProofs.v", "FA/Proofs/LambdaFinderLayouts.v"
 
 LEVEL = ("Coq theorems over a token-level executable model of util_ast's source recovery (find_identifier, tokens_till, "
          "_get_lambda_in_stream, the backing-up loop, grouping by the preceding NAME, caller/argument filters, multiplicity "
-         "errors, def branch) with the fixes F15/F15b.  Safety: finder_never_picks_neighbour (whatever is returned is the "
+         "errors, def branch) with the fixes F15/F15b/F28.  Safety: finder_never_picks_neighbour (whatever is returned is the "
          "passed lambda, for every token stream in which the passed lambda is not written inside another lambda), "
          "lambda_never_def, def_never_lambda, def_exact / def_found_only_own_return (a function's outcome depends only on its "
          "own source), finder_raises_when_ambiguous, finder_total.  Liveness: finder_layout_outcome (outcome on every "
          "call-segment stream = the three filters over its segments) with corollaries finder_supported_layouts_partial, "
          "finder_ambiguous_layout_raises (exactly 'multiple'), finder_uncalled_raises (a lambda that is not the first "
-         "argument raises), def_supported; nested_brackets_balanced + finder_recognised_layouts (a syntactic recogniser - "
+         "argument raises), keyword_lambda_filed_under_method / keyword_lambda_recovered (a lambda passed by keyword is filed "
+         "under the called method and recovered), def_supported; nested_brackets_balanced + finder_recognised_layouts (a syntactic recogniser - "
          "token classes and real bracket nesting - implies the liveness hypotheses).  The pinned commit's selection is kept "
-         "and refuted in Coq (F15, F15b).  PARTIAL: CPython's tokenizer (per start row), untokenize+ast.parse of an extent, "
+         "and refuted in Coq (F15, F15b), and so is the selection before d451731 (F28).  PARTIAL: CPython's tokenizer (per start row), untokenize+ast.parse of an extent, "
          "inspect.findsource/getsource and co_firstlineno are inputs of the model; that a source text of a given shape "
          "tokenizes to a recognised stream is checked by evaluation on every generated case (recogniser cut at the lambda "
          "extents CPython's own parser reports), not proved.")
@@ -44,7 +46,9 @@ RULE = ("generated source files from a layout grammar (single-line chains, black
         "strings/f-strings with brackets and the word lambda, nested lambdas with equal or different names, enclosing "
         "identifiers that are substrings/superstrings of `lambda`/`def` as dataset variables, helpers, hops, attributes and "
         "parameters, several calls inside an enclosing call/tuple/list/dict, def/method/nested def/class body/if/for/try/with/comprehension/conditional expression/decorator/default argument, "
-        "one- and two-line defs, lambdas inside one-line defs, assigned/listed/keyword/second-argument lambdas), each run "
+        "one- and two-line defs, lambdas inside one-line defs, assigned/listed/second-argument lambdas, lambdas passed by "
+        "keyword (f= / filter= / func=, alone, on their own line, chained with positional ones with equal and different "
+        "method/parameter names, keyword names equal to method names)), each run "
         "with a recording fake stream and with the real ObjectStream on an untyped dataset; a case is one callable passed "
         "to Select/Where/SelectMany; non-trivial = the scanned region holds at least two lambdas or spans several rows; "
         "distinct by (source text, marker)")
@@ -54,6 +58,34 @@ WORK = os.path.join(core.WORK, "finder-%d" % os.getpid())
 # ------------------------------------------------------------------------------------------ corpus
 # «m» marks the keyword of the lambda/def with marker m.  (marker, kind, op, args, passed, supported)
 CORPUS = [
+    ("F28 witness: a lambda passed by keyword, alone on its line, is a candidate for the called method",
+     "r = ds.Select(f=«2200»lambda e: e.b + 2200)\n",
+     [(2200, "lambda", "Select", ["e"], True, True)]),
+    ("F28 witness: the keyword lambda of the second call must not be recorded as the first call's lambda",
+     "r = ds.Select(«2210»lambda e: e.a + 2210).Select(f=«2211»lambda e: e.b * 2 + 2211)\n",
+     [(2210, "lambda", "Select", ["e"], True, False), (2211, "lambda", "Select", ["e"], True, False)]),
+    ("F28: keyword and positional lambdas on a line told apart by parameter name / by method name (real parameter names)",
+     "r = ds.Select(«2220»lambda e: e.v + 2220).Select(f=«2221»lambda j: j.v * 2 + 2221)\n"
+     "r = ds.Where(filter=«2222»lambda e: e.v + 2222 != 7).Select(«2223»lambda e: e.v + 2223).SelectMany(func=«2224»lambda e: e.v + 2224)\n"
+     "r = ds.Select(f=«2225»lambda e: e.v + 2225).Where(«2226»lambda e: e.v + 2226 != 7)\n",
+     [(2220, "lambda", "Select", ["e"], True, True), (2221, "lambda", "Select", ["j"], True, True),
+      (2222, "lambda", "Where", ["e"], True, True), (2223, "lambda", "Select", ["e"], True, True),
+      (2224, "lambda", "SelectMany", ["e"], True, True),
+      (2225, "lambda", "Select", ["e"], True, True), (2226, "lambda", "Where", ["e"], True, True)]),
+    ("F28: keyword lambda on its own line below the call (black output), spaces around `=`, two keyword calls wrapped",
+     "r = ds.Select(\n    f=«2230»lambda e: e.v + 2230\n)\n"
+     "r = ds.Where(filter = «2231»lambda e: e.v + 2231 != 7)\n"
+     "r = ds.Select(f=«2232»lambda e: e.v + 2232).Select(\n    f=«2233»lambda e: e.v + 2233\n)\n",
+     [(2230, "lambda", "Select", ["e"], True, True), (2231, "lambda", "Where", ["e"], True, True),
+      (2232, "lambda", "Select", ["e"], True, True), (2233, "lambda", "Select", ["e"], True, True)]),
+    ("F28: keyword names that coincide with method names (the recording stream accepts any keyword): the lambda "
+     "belongs to the called method, not to the method its keyword is named after",
+     "r = ds.Where(Select=«2240»lambda e: e.v + 2240 != 7).Select(f=«2241»lambda e: e.v + 2241)\n"
+     "r = ds.Select(«2242»lambda e: e.v + 2242).Where(Select=«2243»lambda e: e.v + 2243 != 7)\n"
+     "r = ds.Select(Where=«2244»lambda e: e.v + 2244).Where(Select=«2245»lambda j: j.v + 2245 != 7)\n",
+     [(2240, "lambda", "Where", ["e"], True, True), (2241, "lambda", "Select", ["e"], True, True),
+      (2242, "lambda", "Select", ["e"], True, True), (2243, "lambda", "Where", ["e"], True, True),
+      (2244, "lambda", "Select", ["e"], True, True), (2245, "lambda", "Where", ["j"], True, True)]),
     ("F15 witness: third lambda starts a line reached by backing up; the first must not be recorded for it",
      "r = ds.Select(«2001»lambda j: j.jets.Select(\n    «2002»lambda j: j.v + 2002) + (2001,)).Select(«2003»lambda j: j.v + 2003)\n",
      [(2001, "lambda", "Select", ["j"], True, False), (2002, "lambda", "Select", ["j"], False, False),
@@ -317,6 +349,11 @@ def judge(ctx, it: Item):
     fam = it.case.family if it.case else "untagged"
     ctx.count("family", fam)
     ctx.count("mode", it.mode)
+    if it.case is not None and it.case.kind == "lambda" and it.case.pos:
+        row, col = it.case.pos
+        before = it.src.split("\n")[row - 1][:col]
+        by_kw = re.search(r"[(,]\s*[A-Za-z_]\w*\s*=\s*$", before) is not None
+        ctx.count("passed lambda written as", "keyword argument `name=lambda`" if by_kw else "other")
     full = fc.impl_parse(it.f, it.op)
     sel = fc.impl_source_only(it.f, it.op) or full
     ci = canon_impl(it, sel)
@@ -329,12 +366,14 @@ def judge(ctx, it: Item):
         same, why = fc.behaves_like(it.f, full[1])
         if got != it.truth or not same:
             oracle_ok = False
+            ctx.count("oracle failures", "a different lambda was recorded without raising (parse_as_ast)")
             ctx.fail("failing-input",
                      "parse_as_ast(<callable with marker %s>, %r) recorded the lambda with marker %s without raising%s; source:\n%s"
                      % (it.truth, it.op, got, "" if same else " (" + why + ")", it.src),
                      it.witness(), key=it.key())
     elif it.case is not None and it.case.supported:
         oracle_ok = False
+        ctx.count("oracle failures", "documented layout raises")
         ctx.fail("failing-input",
                  "documented layout (%s) not recovered: parse_as_ast(<marker %s>, %r) raises %s; source:\n%s"
                  % (fam, it.truth, it.op, full[1], it.src), it.witness(), key=it.key())
@@ -342,6 +381,7 @@ def judge(ctx, it: Item):
         got = fc.primary(fc.ast_markers(it.real_outcome[1]), it.cases)
         if got != it.truth:
             oracle_ok = False
+            ctx.count("oracle failures", "a different lambda was recorded in query_ast (ObjectStream)")
             ctx.fail("failing-input",
                      "ObjectStream.%s(<callable with marker %s>) recorded the lambda with marker %s in query_ast; source:\n%s"
                      % (it.op, it.truth, got, it.src), it.witness(), key=it.key())
